@@ -98,9 +98,30 @@ def _finalize_worker(args):
             "counts": {r: {m: sorted(v) for m, v in ms.items()} for r, ms in counts.items()}}
 
 
+def _new_worker(args):
+    """Paths of Lexer::new (BOM handling, first line, first token start)."""
+    fact_path, = args
+    t0 = time.time()
+    fx = F.Facts(fact_path)
+    I = lea.Interp(fx, budget=100000)
+    I.probe_enabled = False
+    st = lea_run.base_state([], ckpt="none")
+    err = None
+    outs = []
+    try:
+        outs = I.run_fn("Lexer::new", st, [lea.Obj("source", None), lea.NONE, lea.NONE])
+    except (lea.Unanalysed, lea.Budget) as ex:
+        err = "%s: %s" % (type(ex).__name__, ex)
+    obs, n = lea_rules.bom_rules(I, outs) if err is None else ([], 0)
+    return {"mode": "<new>", "ckpt": "none", "paths": len(outs), "wall": round(time.time() - t0, 2), "error": err,
+            "unanalysed": I.unanalysed, "stats": I.stats, "obs": obs, "counts": {"R-BOM-ORDER": {"new_paths": list(range(n))}}}
+
+
 def _dispatch(t):
     if t[1] == "<finalize>":
         return _finalize_worker((t[0],))
+    if t[1] == "<new>":
+        return _new_worker((t[0],))
     return _worker(t)
 
 
@@ -112,6 +133,7 @@ def compute(fact_path, jobs=None):
     # heavy modes first
     order = {"MacroEval": 0, "Default": 1, "StringExpr": 2}
     tasks.append((fact_path, "<finalize>", "none"))
+    tasks.append((fact_path, "<new>", "none"))
     tasks.sort(key=lambda t: order.get(t[1], 9))
     t0 = time.time()
     with multiprocessing.Pool(jobs or min(16, len(tasks))) as pool:
